@@ -570,7 +570,7 @@ func c15GenSeqCase(rt *rapid.T) c15SeqCase {
 // TestC15Model: random add / proposed / get histories (batch 1..4, clients 1..3, seq 0..10) against the reference model.
 func TestC15Model(t *testing.T) {
 	defer runtime.GOMAXPROCS(runtime.GOMAXPROCS(1)) // histories are sequential; one P avoids cross-thread hand-offs per Get
-	common.Check(t, c15, "TestC15Model", 8000, 600000, c15GenSeqCase, c15SeqProp(t))
+	common.Check(t, c15, "TestC15Model", 24000, 600000, c15GenSeqCase, c15SeqProp(t))
 }
 
 // ---------------------------------------------------------------------------------------------------------------
@@ -702,14 +702,14 @@ func c15Pow(a, b int) int64 {
 }
 
 // TestC15Exhaustive enumerates ALL histories over {get, add(c,s), proposed[c s]} with 2 clients, batch size 1..2:
-// quick: seq 1..3 up to length 5 and seq 1..2 up to length 7; thorough: seq 1..3 up to length 7.
+// quick: seq 1..3 up to length 5 and seq 1..2 up to length 6; thorough: seq 1..3 up to length 7.
 // A Get that has to block is left pending while the following operations run (so the wake-up of a blocked Get is covered),
 // and is cancelled by the next get operation or at the end of the history.
 func TestC15Exhaustive(t *testing.T) {
 	const test = "TestC15Exhaustive"
 	defer runtime.GOMAXPROCS(runtime.GOMAXPROCS(1)) // histories are sequential; one P avoids cross-thread hand-offs per Get
 	type dom struct{ maxSeq, maxLen int }
-	doms := []dom{{3, 5}, {2, 7}}
+	doms := []dom{{3, 5}, {2, 6}}
 	if common.Tier() == "thorough" {
 		doms = []dom{{3, 7}}
 	}
